@@ -49,38 +49,58 @@ example : coeff 62 31 = .ok 465428353255261088 := by decide
 
 /-! ## `Coeffs` -/
 
-/-- `Coeffs(n)` is Pascal's triangle: `n+1` rows, row `i` has the entries `C(i,0) … C(i, i/2)` — each entry is
-the binomial coefficient reduced to a two's-complement `int` (`Coeffs` adds without an overflow check), hence
-*equal* to the binomial coefficient whenever that fits an `int`, in particular everywhere for `n ≤ 66`. -/
+/-- `Coeffs(n)` is Pascal's triangle, exactly or not at all.  If every entry `C(i,j)`, `i ≤ n`, `j ≤ i/2`, fits
+an `int` the model returns `n+1` rows, row `i` having the `i/2+1` entries `C(i,0) … C(i,i/2)` exactly; if some
+entry exceeds `maxInt` it panics.  (Never a wrapped value, never `outOfFuel`.) -/
 theorem coeffs_pascal (n : Nat) :
-    ∃ rows, coeffs (n : Int) = .ok rows ∧ rows.size = n + 1 ∧
-      ∀ i, i ≤ n → ∃ row, rows[i]? = some row ∧ row.size = i / 2 + 1 ∧
-        ∀ j, j ≤ i / 2 →
-          row[j]? = some (wrapInt (Nat.choose i j : Nat)) ∧
-          (Nat.choose i j < 2^63 → row[j]? = some ((Nat.choose i j : Nat) : Int)) ∧
-          (i ≤ 66 → row[j]? = some ((Nat.choose i j : Nat) : Int)) := by
-  refine ⟨rowsSpec (n + 1), coeffs_spec n, by simp [rowsSpec], ?_⟩
-  intro i hi
-  refine ⟨rowSpec i, rowsSpec_get (by omega), by simp [rowSpec], ?_⟩
-  intro j hj
-  have hget := rowSpec_get hj
-  unfold pascalEntry at hget
-  have hex : Nat.choose i j < 2^63 → (rowSpec i)[j]? = some ((Nat.choose i j : Nat) : Int) := by
-    intro hlt
-    rw [two63n] at hlt
-    rw [hget, wrapInt_eq (by omega) (by omega)]
-  refine ⟨hget, hex, ?_⟩
-  intro h66
-  apply hex
-  have h1 : Nat.choose i j ≤ Nat.choose 66 j := Nat.choose_le_choose j h66
-  have h2 : Nat.choose 66 j ≤ Nat.choose 66 33 := Nat.choose_le_middle j 66
-  have h3 : Nat.choose 66 33 < 9223372036854775808 := by
-    have := choose_66_33
-    rwa [chooseMul_eq] at this
-  rw [two63n]
-  omega
+    ((∀ i j, i ≤ n → j ≤ i / 2 → Nat.choose i j ≤ maxInt) →
+      ∃ rows, coeffs (n : Int) = .ok rows ∧ rows.size = n + 1 ∧
+        ∀ i, i ≤ n → ∃ row, rows[i]? = some row ∧ row.size = i / 2 + 1 ∧
+          ∀ j, j ≤ i / 2 → row[j]? = some ((Nat.choose i j : Nat) : Int)) ∧
+    ((∃ i j, i ≤ n ∧ j ≤ i / 2 ∧ maxInt < Nat.choose i j) → coeffs (n : Int) = .panic) := by
+  rw [maxInt_val, coeffs_unfold]
+  obtain ⟨hA, hB⟩ := coeffsLoop_spec (n + 1) 0 (fun i' h => by omega)
+  constructor
+  · intro hall
+    have := hA (fun i' _ h2 j hj => by have := hall i' j (by omega) hj; omega)
+    rw [Nat.zero_add] at this
+    refine ⟨rowsSpec (n + 1), this, by simp [rowsSpec], ?_⟩
+    intro i hi
+    exact ⟨rowSpec i, rowsSpec_get (by omega), by simp [rowSpec], fun j hj => rowSpec_get hj⟩
+  · intro ⟨i, j, hi, hj, hlt⟩
+    exact hB ⟨i, Nat.zero_le _, by omega, fun hf => by have := hf j hj; omega⟩
+
+/-- The overflow threshold of `Coeffs` on 64-bit `int`: some entry of the first `n+1` rows exceeds `maxInt`
+exactly when `n ≥ 67` (`C(66,33) ≤ 2^63-1 < C(67,33)`).  With `coeffs_pascal`: `Coeffs(n)` returns the exact
+triangle for `n ≤ 66` and panics for `n ≥ 67`. -/
+theorem coeffs_overflow_threshold (n : Nat) :
+    (∃ i j, i ≤ n ∧ j ≤ i / 2 ∧ maxInt < Nat.choose i j) ↔ 67 ≤ n := by
+  rw [maxInt_val]
+  constructor
+  · intro ⟨i, j, hi, hj, hlt⟩
+    by_contra hcon
+    have := (rowFits_iff i).mpr (by omega) j hj
+    omega
+  · intro h
+    have h67 : ¬ RowFits 67 := fun hf => by have := (rowFits_iff 67).mp hf; omega
+    unfold RowFits at h67
+    simp only [not_forall, not_lt, exists_prop] at h67
+    obtain ⟨j, hj, hlt⟩ := h67
+    exact ⟨67, j, h, hj, by omega⟩
 
 example : coeffs 4 = .ok #[#[1], #[1], #[1, 2], #[1, 3], #[1, 4, 6]] := by decide
+example : ∃ i j, i ≤ 67 ∧ j ≤ i / 2 ∧ maxInt < Nat.choose i j := (coeffs_overflow_threshold 67).mpr (le_refl _)
+example : ∀ i j, i ≤ 66 → j ≤ i / 2 → Nat.choose i j ≤ maxInt := by
+  intro i j hi hj
+  by_contra h
+  have := (coeffs_overflow_threshold 66).mp ⟨i, j, hi, hj, by omega⟩
+  omega
+
+/-- `Coeffs(n)` for negative `n`: `make([][]int, n+1)` panics for `n < -1`; `Coeffs(-1)` is the empty triangle. -/
+theorem coeffs_negative : coeffs (-1) = .ok #[] ∧ ∀ n : Int, n < -1 → coeffs n = .panic := by
+  refine ⟨by decide, fun n hn => ?_⟩
+  unfold coeffs
+  rw [if_pos (by omega)]
 
 /-! ## `Rank` -/
 
@@ -118,6 +138,22 @@ theorem unrank_terminates (r k fuel : Nat) (hr : r < 2^63) (hk : k + 1 < 2^63) (
   exact unrank_fuel r k fuel hr hk hf
 
 example : unrank 9 7 3 ≠ .outOfFuel ∧ unrank 2 7 3 = .outOfFuel := by decide
+
+/-- Outside the property's domain, as coded: `Unrank(r, 0) = []` for every `r`, and a negative rank yields
+`[0, 1, …, k-1]` (the inner loop is never entered). -/
+theorem unrank_degenerate :
+    (∀ (fuel : Nat) (r : Int), unrank fuel r 0 = .ok []) ∧
+    (∀ (fuel k : Nat) (r : Int), r < 0 → -2^63 ≤ r → 1 ≤ fuel →
+      unrank fuel r (k : Int) = .ok (toInts (List.range k))) := by
+  refine ⟨unrank_k_zero, ?_⟩
+  intro fuel k r hr hr' hf
+  rw [two63] at hr'
+  obtain ⟨f, rfl⟩ : ∃ f, fuel = f + 1 := ⟨fuel - 1, by omega⟩
+  unfold unrank
+  rw [if_neg (by omega), Int.toNat_natCast, unrankLoop_neg f r hr hr']
+  simp
+
+example : unrank 1 (-4) 3 = .ok (toInts [0, 1, 2]) := by decide
 
 /-- `Rank ∘ Unrank = id`: for `k ≥ 1` and every `r` in `[0, MaxInt]`, `Unrank(r, k)` is a strictly increasing
 list of `k` naturals (that fit an `int`) whose colex rank is `r`; `Rank` of it returns `r` or panics (it does
